@@ -503,6 +503,9 @@ func (env *Env) index(e *Expr) SV {
 	if env.err != nil {
 		return SV{T: True}
 	}
+	if base.T == nil || idx.T == nil {
+		return SV{T: nil} // about a call record that does not exist on this path
+	}
 	if base.Ty == nil {
 		if base.T.Sort.IsArray() {
 			return SV{T: Select(base.T, idx.T)}
@@ -562,6 +565,15 @@ func (env *Env) call(e *Expr) SV {
 	st := env.st
 	bt := types.Type(types.Typ[types.Bool])
 	it := types.Type(types.Typ[types.Int])
+	switch e.Name {
+	case "real", "itoa", "i2f", "fdiv", "fmul", "fadd", "fsub", "abs", "round", "trunc", "wrap64", "isInt":
+		// arithmetic over a call record that does not exist on this path stays "no record"
+		for i := range e.Args {
+			if a := env.eval(e.Args[i]); a.T == nil {
+				return SV{T: nil}
+			}
+		}
+	}
 	switch e.Name {
 	case "now":
 		// now(e): e in the current state, even inside old()/iter()/entry()/at()
@@ -651,6 +663,9 @@ func (env *Env) call(e *Expr) SV {
 		return r
 	case "len":
 		a := arg(0)
+		if a.T == nil {
+			return SV{T: nil} // about a call record that does not exist on this path
+		}
 		if a.T.Sort == SStr {
 			return SV{T: x.slenOf(st, a.T), Ty: it}
 		}
@@ -715,7 +730,7 @@ func (env *Env) call(e *Expr) SV {
 		}
 		return SV{T: Eq(ToReal(App("to_int", SInt, a.T)), a.T), Ty: bt}
 	case "round":
-		return SV{T: App("fround", SReal, ToReal(arg(0).T))}
+		return SV{T: ToReal(App("iround", SInt, ToReal(arg(0).T)))} // the term math.Round gets in the code
 	case "trunc":
 		return SV{T: App("ftrunc", SInt, ToReal(arg(0).T))}
 	case "wrap64":
@@ -913,6 +928,13 @@ func (env *Env) call(e *Expr) SV {
 			return SV{T: t, Ty: x.argTypes[k]}
 		}
 		return SV{T: nil, Ty: nil}
+	case "endswith":
+		// endswith(s, c): the text s ends with the byte c (what ReadBytes/ReadString promise about a line read without an error)
+		if arg(0).T == nil || arg(1).T == nil {
+			return SV{T: x.freshVar("norecord", SBool), Ty: bt}
+		}
+		theU.DeclFunc("endswith", SBool, SStr, SInt)
+		return SV{T: App("endswith", SBool, arg(0).T, arg(1).T), Ty: bt}
 	case "plain":
 		// plain(s): s carries no zero-width control sequences, so runewidth measures it truly
 		if arg(0).T == nil {
